@@ -354,7 +354,7 @@ impl Property for C06 {
     fn runs(&self, tier: Tier) -> u64 {
         match tier {
             Tier::Quick => 500,
-            Tier::Thorough => 12_000,
+            Tier::Thorough => 100_000,
         }
     }
     fn both_profiles(&self) -> bool {
